@@ -33,7 +33,7 @@ def run(ctx):
     ctx.cov["bounds"] = {"Persist": dict(option_fields=len(ps.OPT_NAMES), values_per_field="default / non-default (/ complex / None for terminal_psi; None is output_file's default)",
                                          max_deviating_fields=maxdev, multi_field_records_without_a_None_able_field_sampled_1_in=pairmod,
                                          device_shapes="holes 0..2 x terminals {0,2,3} x probe points {0,2,3} x conductivity x mesh x save_mesh",
-                                         mesh_modes=["full", "compressed"], solution_modes=["copy", "inplace", "deleted"], recorded_steps="1..4"),
+                                         mesh_modes=["full", "compressed"], solution_modes=["copy", "inplace", "deleted", "nofile (output_file=None)"], recorded_steps="1..4", solution_probe_points=[False, True], solution_screening=[False, True]),
                          "ParamAlg": dict(operator_levels=2, level2_sampled_1_in=401 if quick else 23),
                          "mechanism": {"Persist": ps.MECH, "ParamAlg": pa.MECH}}
     # ---- 1. design
@@ -63,6 +63,8 @@ def run(ctx):
               ps.model_cfg(small, 1, 1, 0, dict(ps.MECH, MLayerCond=False), ["LoadSaveIdentity"]), "LoadSaveIdentity"),
              ("Persist[mutant: mesh restored without dual arrays, MeshRestoredEqualsRecomputed]",
               ps.model_cfg(small, 1, 1, 0, dict(ps.MECH, MRestoreDual=False), ["MeshRestoredEqualsRecomputed"]), "MeshRestoredEqualsRecomputed"),
+             ("Persist[mutant: dynamics of a solution without a file written only with probe points, LoadSaveIdentity]",
+              ps.model_cfg(["solution"], 1, 1, 0, dict(ps.MECH, MDynAlways=False), ["LoadSaveIdentity"]), "LoadSaveIdentity"),
              ("Persist[mutant: polygon points not stored as held, FileHoldsContent]",
               ps.model_cfg(small, 1, 1, 0, dict(ps.MECH, MPolyAsHeld=False), ["FileHoldsContent"]), "FileHoldsContent")]
     cases = [c + ("Persist",) for c in cases]
@@ -166,6 +168,15 @@ def run(ctx):
             fr = bad["ev"][-1]["rec"]["frames"]
             fr[0], fr[1] = fr[1], fr[0]
             reject(bad, "loaded frames swapped")
+        for fld in ("dt", "screening_iterations"):
+            cands = [n for n in acc_by_kind["solution"] if norm[n]["ev"][-1]["rec"]["dyn"][fld] != 0 and not norm[n]["shape"]["probes"]]
+            if cands:
+                bad = copy.deepcopy(norm[cands[-1]])
+                bad["ev"][-1]["rec"]["dyn"][fld] = 0
+                reject(bad, f"loaded dynamics lack {fld}")
+        bad = copy.deepcopy(norm[acc_by_kind["solution"][-1]])
+        bad["ev"][-1]["rec"]["times"] += 1
+        reject(bad, "loaded Solution.times differ")
     if bads:
         acc, _ = ctx.validate_traces("PersistTrace", [b for b, _ in bads], ps.trace_cfg(), name="canaries[corrupted observations]", count=False)
         if acc:
@@ -176,7 +187,7 @@ def run(ctx):
             raise core.MachineryFailure(f"C14: no accepted trace of kind {k}")
     ctx.cov["rule"] = ("one case = one record / shape enumerated by TLC, materialised with the real classes, saved with the real to_hdf5 / pickle "
                        "and loaded back (options: re-saved into a tiny solved Solution file, a subset through a real solve; devices: 6 input "
-                       "variants; meshes of 3-5 generated devices; solutions: every recorded step loaded; parameters: pickle, cloudpickle and "
+                       "variants; meshes of 3-5 generated devices; solutions: 4 save modes x probe points x screening, every recorded step loaded, dynamics / times / closest_solve_step compared; parameters: pickle, cloudpickle and "
                        "stored inside a Solution file); all cases are non-trivial; distinct = distinct records x materialisations")
     ctx.assume("terminal order inside a loaded Device is by name (h5py group order); terminals are compared as a set of named polygons, "
                "as Device.__eq__ does")
